@@ -257,7 +257,13 @@ PARTIAL_HELPERS = {
 #   self->unsolicited_fsm.write_buf = get_unsolicited_buf(self)    setu_wbuf WB_MAIN
 #   self->var = c->var   /   self->var = &c->var[e]    setk_var 0  /  setk_var e        (same for u)
 # ---- BUFFER STORES:  get_atcmd_buf(self)[e] = v      store_c e v s   (HandlerTieLib.v)
-# ---- library calls:  strlen(c->name)                 length (c_name c)
+# ---- library calls (the callee must be declared but NOT defined in the translation unit):
+#   strlen(c->name)                                                    length (c_name c)
+#   strncpy(get_atcmd_buf(self), "LIT", get_atcmd_buf_size(self))      set_cbuf (strncpy_buf (asz s) LIT) s
+#   memset(get_atcmd_buf(self), V, get_atcmd_buf_size(self))           set_cbuf (repeat V (asz s)) s
+#   (the working buffer of the model IS the first get_atcmd_buf_size bytes of desc->buf, so a
+#    library call that fills exactly that many bytes replaces the whole of cbuf)
+LIBRARY_CALLS = ("strlen", "strncpy", "memset")
 
 # ---- what is translated (in this order) ----
 READING_STATES = ["error_state", "parse_prefix", "parse_command", "wait_read_acknowledge",
@@ -271,6 +277,7 @@ HANDLER_FUNCTIONS = [
     "command_found", "search_command", "update_command",
     "end_processing_with_error", "end_processing_with_ok",
     "command_not_found", "start_print_cmd_list", "cmd_list_next_cmd",
+    "ack_error", "ack_ok", "prepare_parse_command",
 ]
 
 # ======================================================================================
@@ -464,6 +471,10 @@ class FunctionTranslator:
         self.origin = {"s": ("init", True)}
         self.kont_needs = set()          # continuations whose body dereferences self->cmd
         self.local_names = {}            # clang decl id -> C name of a local / parameter
+        self.const_locals = {}           # clang decl id -> value of a never re-assigned local
+                                         # initialised with an integer constant expression
+        self.written_locals = set()      # ids of the locals assigned somewhere in the function
+        self.defined_in_tu = set()       # names of the functions DEFINED in the translation unit
 
     # ---- names -----------------------------------------------------------------------
     def fresh(self, base, bare_first=False):
@@ -545,6 +556,8 @@ class FunctionTranslator:
         kind = node.get("kind")
         if kind == "DeclRefExpr":
             did = node.get("referencedDecl", {}).get("id")
+            if did in self.const_locals:
+                return Ex("int", None, lit=self.const_locals[did])
             if did in env:
                 name, k = env[did]
                 if name is None:
@@ -624,7 +637,7 @@ class FunctionTranslator:
             t = self.fresh("t")
             G.append(Guard(tmpl.format(*args, s=s), "None", "Some " + t))
             return Ex(k, t)
-        if name == "strlen" and len(node["inner"]) == 2:
+        if name == "strlen" and len(node["inner"]) == 2 and name not in self.defined_in_tu:
             a = self.ex(node["inner"][1], s, env, G)
             if a.kind == "cstr":
                 return Ex("nat", "length %s" % par(a.term))
@@ -681,6 +694,10 @@ class FunctionTranslator:
             if op in ("==", "!=", "<", "<=", ">", ">=", "&&", "||"):
                 return Ex("bool", self.truth(node, s, env, G))
             a, b = node["inner"]
+            if op in ("<<", "|", "&", "+", "-", "*"):
+                folded = self.fold(node, op, a, b, s, env)
+                if folded is not None:
+                    return folded
             if op == "+":
                 ea, eb = self.ex(a, s, env, G), self.ex(b, s, env, G)
                 if ea.kind == "nat" and eb.kind == "int" and eb.lit == 1:
@@ -710,6 +727,23 @@ class FunctionTranslator:
                 refuse(node, "branches of ?: of different kinds (%s, %s)" % (ea.kind, eb.kind))
             return Ex(ea.kind, "if %s then %s else %s" % (ct, ea.term, eb.term))
         refuse(node, "expression of kind %s" % kind)
+
+    def fold(self, node, op, a, b, s, env):
+        """Integer constant expression over literals: computed here (only while every
+        intermediate value stays in [0, 2^31), where int and unsigned int agree)."""
+        try:
+            ea, eb = self.ex(a, s, env, []), self.ex(b, s, env, [])
+        except Unsupported:
+            return None
+        if ea.kind != "int" or eb.kind != "int":
+            return None
+        x, y = ea.lit, eb.lit
+        if x < 0 or y < 0 or (op == "<<" and y > 30):
+            refuse(node, "constant expression with a negative operand or a large shift")
+        v = {"<<": x << y, "|": x | y, "&": x & y, "+": x + y, "-": x - y, "*": x * y}[op]
+        if not 0 <= v < 2 ** 31:
+            refuse(node, "constant expression whose value leaves [0, 2^31)")
+        return Ex("int", None, lit=v)
 
     def value(self, node, kind, s, env, G):
         """Translate `node` as a value of the given kind."""
@@ -1028,6 +1062,8 @@ class StatementTranslator(FunctionTranslator):
                     continue
                 if d.get("init") != "c" or len(d["inner"]) != 1:
                     refuse(d, "local declaration other than `T x = e;`")
+                if d["id"] not in self.written_locals and self.constant_local(d):
+                    continue
                 env, text = self.bind_local(d, d["id"], k, d["inner"][0], s, env, G)
                 lets.append(text)
             body = "".join(lets) + self.block(rest, s, env, kb, kbrk, later)
@@ -1035,8 +1071,13 @@ class StatementTranslator(FunctionTranslator):
 
         # expression statements
         text, s2, env2 = self.effect(S, s, env, G)
-        body = text + self.block(rest, s2, env2, kb, kbrk, later)
-        return self.wrap(G, body, kb, s, env)
+        after = self.block(rest, s2, env2, kb, kbrk, later)
+        m = re.fullmatch(r"let (\w+) := (.*) in\n", text)
+        if m and m.group(1) == after:              # `let s2 := e in s2` is just `e`
+            body = m.group(2)
+        else:
+            body = text + after
+        return self.wrap(G, body, kb, s, env0)
 
     def is_void_cast(self, S):
         n = strip(S)
@@ -1055,6 +1096,23 @@ class StatementTranslator(FunctionTranslator):
         if q not in table:
             refuse(d, "variable of unmapped type '%s'" % t.get("qualType"))
         return table[q]
+
+    def constant_local(self, d):
+        """`T x = <integer constant expression>;` with x never assigned again: x stands for the
+        value (which must be representable in T)."""
+        try:
+            e = self.ex(d["inner"][0], "s", {}, [])
+        except Unsupported:
+            return False
+        bits = int_bits(d)
+        if e.kind != "int" or bits is None:
+            return False
+        unsigned = "unsigned" in d.get("type", {}).get("desugaredQualType", d["type"].get("qualType", ""))
+        lo, hi = (0, 2 ** bits - 1) if unsigned else (-2 ** (bits - 1), 2 ** (bits - 1) - 1)
+        if not lo <= e.lit <= hi:
+            refuse(d, "constant %d does not fit the type of '%s'" % (e.lit, d.get("name")))
+        self.const_locals[d["id"]] = e.lit
+        return True
 
     def bind_local(self, node, did, k, init, s, env, G):
         """`x = init` for the local `did` of kind k.  -> (new env, let-text)."""
@@ -1128,6 +1186,8 @@ class StatementTranslator(FunctionTranslator):
             return self.incr(n, strip(n["inner"][0]), s, env, G)
         if kind == "CallExpr":
             name = self.callee_name(n)
+            if name in ("strncpy", "memset"):
+                return self.fill_buffer(n, name, s, env, G)
             if name not in STATE_HELPERS:
                 refuse(n, "call of '%s', which is not in the mapping table" % name)
             tmpl, kinds = STATE_HELPERS[name]
@@ -1157,6 +1217,32 @@ class StatementTranslator(FunctionTranslator):
                 self.origin[s1] = (self.origin.get(s, (None, False))[0], False)
             return "let %s := %s %s %s in\n" % (s1, setter, par(v), s), s1, env
         refuse(S, "statement of kind %s" % kind)
+
+    def fill_buffer(self, n, name, s, env, G):
+        """strncpy(get_atcmd_buf(self), "LIT", get_atcmd_buf_size(self)) and
+        memset(get_atcmd_buf(self), V, get_atcmd_buf_size(self)): the whole working buffer."""
+        if name in self.defined_in_tu or len(n["inner"]) != 4:
+            refuse(n, "%s is not the C library's, or has an unexpected number of arguments" % name)
+        dst, src, size = (strip_casts(a) for a in n["inner"][1:])
+
+        def self_call(c, fname):
+            return c.get("kind") == "CallExpr" and self.callee_name(c) == fname \
+                and len(c["inner"]) == 2 and self.is_self(c["inner"][1])
+        if not (self_call(dst, "get_atcmd_buf") and self_call(size, "get_atcmd_buf_size")):
+            refuse(n, "%s other than (get_atcmd_buf(self), .., get_atcmd_buf_size(self))" % name)
+        if name == "strncpy":
+            spelled = src.get("value", "")
+            if src.get("kind") != "StringLiteral" or not re.fullmatch(r'"[A-Za-z0-9 +:_-]*"', spelled):
+                refuse(n, "strncpy of something that is not a plain string literal")
+            data = "strncpy_buf (asz %s) [%s]%%N" % (s, "; ".join(str(ord(c)) for c in spelled[1:-1]))
+        else:
+            v = self.coerce(n, self.ex(n["inner"][2], s, env, G), "Z")
+            m = re.fullmatch(r"(\d+)%Z", v.term)
+            if not m or not 0 <= int(m.group(1)) <= 255:
+                refuse(n, "memset with a value that is not a constant byte")
+            data = "repeat %s%%N (asz %s)" % (m.group(1), s)
+        s1 = self.same_cmd(s, self.fresh("s"))
+        return "let %s := set_cbuf (%s) %s in\n" % (s1, data, s), s1, env
 
     def buffer_store(self, node, tgt, rhs, s, env, G):
         """get_atcmd_buf(self)[i] = v   /   get_atcmd_buf(self)[self->f++] = v"""
@@ -1376,7 +1462,7 @@ def split_reading_prologue(tr, items):
     return rest
 
 
-def translate_function(fn, decls, defines_ok):
+def translate_function(fn, decls, defines_ok, defined_in_tu=frozenset()):
     """-> (coq text or None, report entry)."""
     if not decls:
         return None, {"status": "missing"}
@@ -1386,6 +1472,7 @@ def translate_function(fn, decls, defines_ok):
         d = decls[0]
         reading = fn in READING_STATES
         tr = StatementTranslator(fn, d, defines_ok, reading)
+        tr.defined_in_tu = defined_in_tu
         params = [c for c in d["inner"] if c.get("kind") == "ParmVarDecl"]
         body = [c for c in d["inner"] if c.get("kind") == "CompoundStmt"][0]
         if d.get("variadic") or not params or \
@@ -1402,6 +1489,7 @@ def translate_function(fn, decls, defines_ok):
             tr.local_names[p["id"]] = p.get("name", "anon")
             binders.append("(%s : %s)" % (name, COQ_TYPE[PARAM_KINDS[q]]))
         items = body.get("inner", [])
+        tr.written_locals = local_writes(items)
         if reading:
             items = split_reading_prologue(tr, items)
         find_mode(tr, d, items)
@@ -1444,7 +1532,7 @@ def translate(repo_src_dir, functions=None):
     defines_ok = all(defines.get(k) == v for k, v in EXPECTED_DEFINES.items())
     report, texts = {}, []
     for fn in functions:
-        text, report[fn] = translate_function(fn, defs.get(fn, []), defines_ok)
+        text, report[fn] = translate_function(fn, defs.get(fn, []), defines_ok, frozenset(defs))
         if text:
             texts.append(text)
     return header + "\n" + "\n".join(texts), report
@@ -1512,7 +1600,8 @@ def find_witness(segs, fn, coq_dir, workdir):
     evaluation itself failed)."""
     path = os.path.join(workdir, "HandlerDiag_%s.v" % fn)
     write(path, assemble(segs, [fn], with_theorems=False)
-          + "\nEval vm_compute in wit_%s.\n" % fn)
+          + "\nFrom Coq Require Import String.\nLocal Open Scope string_scope.\n"
+            "Eval vm_compute in wit_%s.\n" % fn)
     ok, out, _ = coqc(path, coq_dir, workdir)
     if not ok:
         return None
